@@ -60,7 +60,7 @@ def gen_type(rng, domain):
             return rng.choice(SCALARS)
         if k < 0.8:
             return "Optional[%s]" % rng.choice(SCALARS)
-        return "Literal[%s]" % ", ".join("'%s'" % m for m in sorted(rng.sample(["a", "b", "c", "np", "tf"], rng.randint(2, 3))))
+        return "Literal[%s]" % ", ".join("'%s'" % m for m in rng.sample(["a", "b", "c", "np", "tf"], rng.randint(2, 3)))
     if domain == "sql":
         if k < 0.55:
             return rng.choice(SCALARS)
@@ -68,13 +68,13 @@ def gen_type(rng, domain):
             return "dict"
         if k < 0.85:
             return "Optional[%s]" % rng.choice(SCALARS)
-        return "Literal[%s]" % ", ".join("'%s'" % m for m in sorted(rng.sample(["a", "b", "c", "np", "tf"], rng.randint(2, 3))))
+        return "Literal[%s]" % ", ".join("'%s'" % m for m in rng.sample(["a", "b", "c", "np", "tf"], rng.randint(2, 3)))
     if k < 0.4:
         return rng.choice(SCALARS)
     if k < 0.6:
         return "Optional[%s]" % rng.choice(SCALARS + ["List[str]"])
     if k < 0.72:
-        return "Literal[%s]" % ", ".join("'%s'" % m for m in sorted(rng.sample(["a", "b", "c", "np", "tf"], rng.randint(2, 3))))
+        return "Literal[%s]" % ", ".join("'%s'" % m for m in rng.sample(["a", "b", "c", "np", "tf"], rng.randint(2, 3)))
     if k < 0.82:
         return rng.choice(["List[str]", "List[int]"])
     if k < 0.9:
@@ -227,7 +227,7 @@ def typ_change(a, b):
     if sa.startswith("Literal[") and sb.replace("Optional[", "").startswith("Literal["):
         if frozenset(re.findall(r"'([^']*)'|\"([^\"]*)\"", sa)) == frozenset(re.findall(r"'([^']*)'|\"([^\"]*)\"", sb)) and \
                 sb.startswith("Literal["):
-            return None
+            return "typ:Literal-members-reordered"      # the same members in another order: not the same type string
     head = lambda t: re.match(r"[A-Za-z_.]*", t.replace("Optional[", "", 1) if t.startswith("Optional[") else t).group(0) or "?"
     return "typ:%s%s->%s%s" % ("Opt-" if a.startswith("Optional[") else "", head(a), "Opt-" if b.startswith("Optional[") else "", head(b))
 
